@@ -129,7 +129,7 @@ def irf_items(cfg: dict, shifts) -> tuple[dict, dict]:
 
 
 BACKSWEEP_PERIOD = 13.0
-SCALE_TAB = [[1, 1], [3, 1], [1, 2]]  # IrfIndex!ScaleTab (cross-checked against the emitted eff.scales by the callers)
+SCALE_TAB = [[5, 2], [3, 1], [1, 2]]  # IrfIndex!ScaleTab (cross-checked against the emitted eff.scales by the callers)
 
 
 def plain_irf_items(centres, widths, scales, normalize: bool, scalar: bool = False, backsweep: bool = False) -> tuple[dict, dict]:
